@@ -136,8 +136,18 @@ class C08Session(Session):
     def _bind(world, op, data):
         """caller data + the caller's source/observer containers bound to the objects of `world`"""
         d = dict(data)
-        d["obs_list"] = [(world[it] if isinstance(it, int) else data[f"obs{n}"])
-                         for n, it in enumerate(op.get("observers", []))]
+
+        def one(n, it):
+            if isinstance(it, int):
+                return world[it]
+            if "posof" in it:  # a live view of an object's path used as observer positions
+                return world[it["posof"]].position
+            if "pixelof" in it:
+                px = getattr(world[it["pixelof"]], "pixel", None)
+                return px if px is not None else world[it["pixelof"]].position
+            return data[f"obs{n}"]
+
+        d["obs_list"] = [one(n, it) for n, it in enumerate(op.get("observers", []))]
         d["src_list"] = [world[i] for i in op.get("sources", [])]
         return d
 
@@ -578,7 +588,10 @@ class Sim:
             out = []
             for _ in range(k):
                 r = rng.random()
-                if r < 0.55 and sens:
+                if r < 0.08:
+                    out.append({"posof": rng.randrange(len(w.objs))} if rng.random() < 0.6 or not sens
+                               else {"pixelof": rng.choice(sens)})
+                elif r < 0.55 and sens:
                     out.append(rng.choice(sens))
                 elif r < 0.7 and sens_colls:
                     out.append(rng.choice(sens_colls))
@@ -702,7 +715,8 @@ class Sim:
                     yield dict(op, **{key: lst[:i] + lst[i + 1:]})
         obs = op.get("observers", [])
         for i, it in enumerate(obs):
-            if isinstance(it, dict) and it != {"arr": [0.5, 0.5, 0.5]}:
+            if isinstance(it, dict) and it != {"arr": [0.5, 0.5, 0.5]} and "arr" in it or \
+                    isinstance(it, dict) and ("list" in it or "tuple" in it):
                 yield dict(op, observers=obs[:i] + [{"arr": [0.5, 0.5, 0.5]}] + obs[i + 1:])
         if op["via"] in ("src", "sens") and op.get("sources") and op.get("observers"):
             yield dict(op, via="top")
